@@ -1,2 +1,424 @@
-From Got Require Import Base Sort Unique.
-Lemma SortSorted_stub : True. Proof. exact I. Qed.
+(* SortSorted.v -- sortedness of the introsort model under a strict weak order.
+   Style: partial-correctness reasoning by inversion of the monadic binds; the frame
+   facts (termination, in-range indices, outside untouched, permutation) are imported from
+   SortProofs.v through srt_spec_elim. *)
+From Got Require Import Base Sort SortProofs.
+Require Import Permutation Sorted.
+Local Open Scope Z_scope.
+
+Section Inversion.
+  Context {K V : Type}.
+  Variable less : K -> K -> bool.
+  Notation ST := (srt_state K V).
+
+  Lemma srt_inv_bind {A B} (m : srt_M A) (f : A -> srt_M B) (s : ST) r :
+    srt_bind m f s = SOk r -> exists a s1, m s = SOk (a, s1) /\ f a s1 = SOk r.
+  Proof.
+    unfold srt_bind. destruct (m s) as [[a s1]| |]; try discriminate. eauto.
+  Qed.
+
+  Lemma srt_inv_ret {A} (a b : A) (s s' : ST) : srt_ret a s = SOk (b, s') -> a = b /\ s = s'.
+  Proof. unfold srt_ret. intros H. injection H as -> ->. auto. Qed.
+
+  Lemma srt_inv_less i j (s : ST) t s' :
+    srt_less less i j s = SOk (t, s') ->
+    exists x y, srt_zget (st_keys s) i = Some x /\ srt_zget (st_keys s) j = Some y /\
+                t = less x y /\ st_keys s' = st_keys s /\ st_vals s' = st_vals s.
+  Proof.
+    unfold srt_less. destruct (srt_zget (st_keys s) i) as [x|]; [|discriminate].
+    destruct (srt_zget (st_keys s) j) as [y|]; [|discriminate].
+    intros H. injection H as <- <-. exists x, y. cbn. auto.
+  Qed.
+
+  Lemma srt_inv_swap i j (s : ST) u s' :
+    srt_swap i j s = SOk (u, s') ->
+    exists x y, srt_zget (st_keys s) i = Some x /\ srt_zget (st_keys s) j = Some y /\
+                srt_zget (st_keys s') i = Some y /\ srt_zget (st_keys s') j = Some x /\
+                (forall k, k <> i -> k <> j -> srt_zget (st_keys s') k = srt_zget (st_keys s) k).
+  Proof.
+    unfold srt_swap. destruct (srt_swap_list (st_keys s) i j) as [ks|] eqn:Ek; [|discriminate].
+    destruct (srt_swap_list (st_vals s) i j) as [vs|]; [|discriminate].
+    intros H. injection H as _ <-. cbn [st_keys].
+    unfold srt_swap_list in Ek.
+    destruct (srt_zget (st_keys s) i) as [x|] eqn:Ex; [|discriminate].
+    destruct (srt_zget (st_keys s) j) as [y|] eqn:Ey; [|discriminate].
+    destruct (srt_swap_list_spec _ _ _ _ _ Ex Ey) as (l' & El & _ & _ & H1 & H2 & H3).
+    unfold srt_swap_list in El. rewrite Ex, Ey in El. rewrite El in Ek. injection Ek as <-.
+    exists x, y. auto.
+  Qed.
+
+  Lemma srt_inv_tick k (s : ST) u s' :
+    srt_tick k s = SOk (u, s') -> st_keys s' = st_keys s.
+  Proof. unfold srt_tick. intros H. injection H as _ <-. reflexivity. Qed.
+
+  (* importing a frame spec for a run that is known to return *)
+  Lemma srt_spec_elim {A} lo hi (m : srt_M A) Q (s : ST) a s' :
+    srt_spec lo hi m Q -> srt_wf hi s -> m s = SOk (a, s') ->
+    srt_frame lo hi s s' /\ srt_wf hi s' /\ Q a (Z.of_N (st_cmp s') - Z.of_N (st_cmp s)).
+  Proof.
+    intros Hs Hw E. destruct (Hs s Hw) as (a1 & s1 & E1 & F & HQ).
+    rewrite E in E1. injection E1 as <- <-. split; [exact F|]. split; [|exact HQ].
+    eapply srt_wf_frame; eassumption.
+  Qed.
+End Inversion.
+
+(* ------------------------------------------------------------------ segments *)
+Section Segments.
+  Context {A : Type}.
+
+  Definition srt_seg (l : list A) (a b : Z) : list A :=
+    firstn (Z.to_nat (b - a)) (skipn (Z.to_nat a) l).
+
+  Lemma nth_error_firstn (n : nat) (l : list A) (i : nat) :
+    (i < n)%nat -> nth_error (firstn n l) i = nth_error l i.
+  Proof.
+    revert l i. induction n as [|n IH]; intros l i H; [lia|].
+    destruct l; [destruct i; reflexivity|]. destruct i; [reflexivity|]. cbn. apply IH. lia.
+  Qed.
+
+  Lemma srt_firstn_eq (l l' : list A) (n : nat) :
+    length l = length l' ->
+    (forall i, i < Z.of_nat n -> srt_zget l' i = srt_zget l i) -> firstn n l' = firstn n l.
+  Proof.
+    intros HL H. apply srt_nth_error_ext. intros i.
+    destruct (Nat.lt_ge_cases i n) as [Hi|Hi].
+    - rewrite !nth_error_firstn by exact Hi.  specialize (H (Z.of_nat i)).
+      rewrite !srt_zget_nat in H by lia. rewrite Nat2Z.id in H. apply H. lia.
+    - assert (H1 : nth_error (firstn n l') i = None) by (apply nth_error_None; rewrite firstn_length; lia).
+      assert (H2 : nth_error (firstn n l) i = None) by (apply nth_error_None; rewrite firstn_length; lia).
+      congruence.
+  Qed.
+
+  Lemma srt_skipn_skipn (x y : nat) (l : list A) : skipn x (skipn y l) = skipn (y + x) l.
+  Proof.
+    revert l. induction y as [|y IH]; intros l; [reflexivity|].
+    destruct l; [rewrite !skipn_nil; reflexivity|]. cbn. apply IH.
+  Qed.
+
+  Lemma srt_split3 (l : list A) a b :
+    0 <= a <= b -> l = firstn (Z.to_nat a) l ++ srt_seg l a b ++ skipn (Z.to_nat b) l.
+  Proof.
+    intros H. unfold srt_seg.
+    rewrite <- (firstn_skipn (Z.to_nat a) l) at 1. f_equal.
+    rewrite <- (firstn_skipn (Z.to_nat (b - a)) (skipn (Z.to_nat a) l)) at 1. f_equal.
+    rewrite srt_skipn_skipn. f_equal. lia.
+  Qed.
+
+  Lemma srt_seg_perm (l l' : list A) a b :
+    0 <= a <= b -> length l' = length l -> Permutation l' l ->
+    (forall i, i < a \/ b <= i -> srt_zget l' i = srt_zget l i) ->
+    Permutation (srt_seg l' a b) (srt_seg l a b).
+  Proof.
+    intros Hab HL HP Hout.
+    rewrite (srt_split3 l a b Hab) in HP at 1. rewrite (srt_split3 l' a b Hab) in HP at 1.
+    assert (H1 : firstn (Z.to_nat a) l' = firstn (Z.to_nat a) l).
+    { apply srt_firstn_eq; [congruence|]. intros i Hi. apply Hout. lia. }
+    assert (H2 : skipn (Z.to_nat b) l' = skipn (Z.to_nat b) l).
+    { apply srt_skipn_eq. intros i Hi. apply Hout. lia. }
+    rewrite H1, H2 in HP. apply Permutation_app_inv_l in HP. apply Permutation_app_inv_r in HP.
+    exact HP.
+  Qed.
+
+  Lemma srt_seg_zget (l : list A) a b k :
+    0 <= a -> 0 <= k < b - a -> srt_zget (srt_seg l a b) k = srt_zget l (a + k).
+  Proof.
+    intros Ha Hk. unfold srt_seg. rewrite !srt_zget_nat by lia.
+    rewrite nth_error_firstn by lia. rewrite srt_nth_error_skipn. f_equal. lia.
+  Qed.
+
+  Lemma srt_seg_length (l : list A) a b :
+    0 <= a <= b -> b <= Z.of_nat (length l) -> Z.of_nat (length (srt_seg l a b)) = b - a.
+  Proof.
+    intros H1 H2. unfold srt_seg. rewrite firstn_length, skipn_length. lia.
+  Qed.
+
+  (* every element of l at an index in [a,b) satisfies P *)
+  Definition srt_all_on (P : A -> Prop) (l : list A) (a b : Z) : Prop :=
+    forall i x, a <= i < b -> srt_zget l i = Some x -> P x.
+
+  Lemma srt_all_on_seg P (l : list A) a b :
+    0 <= a <= b -> b <= Z.of_nat (length l) ->
+    (srt_all_on P l a b <-> Forall P (srt_seg l a b)).
+  Proof.
+    intros H1 H2. rewrite Forall_forall. split.
+    - intros H x Hx. apply In_nth_error in Hx. destruct Hx as [n Hn].
+      assert (Hlt : (n < length (srt_seg l a b))%nat) by (apply nth_error_Some; congruence).
+      pose proof (srt_seg_length l a b H1 H2).
+      apply (H (a + Z.of_nat n) x); [lia|].
+      rewrite <- srt_seg_zget with (b := b) by lia. rewrite srt_zget_nat by lia.
+      rewrite Nat2Z.id. exact Hn.
+    - intros H i x Hi Hx. apply H.
+      replace i with (a + (i - a)) in Hx by lia.
+      rewrite <- srt_seg_zget with (b := b) in Hx by lia.
+      rewrite srt_zget_nat in Hx by lia. eapply nth_error_In. exact Hx.
+  Qed.
+End Segments.
+
+Section FrameSeg.
+  Context {K V : Type}.
+  Notation ST := (srt_state K V).
+
+  (* a property of all keys of the segment survives any computation framed by the segment *)
+  Lemma srt_all_on_frame (P : K -> Prop) a b (s s' : ST) :
+    0 <= a <= b -> srt_wf b s -> srt_frame a b s s' ->
+    srt_all_on P (st_keys s) a b -> srt_all_on P (st_keys s') a b.
+  Proof.
+    intros Hab [W _] F H.
+    pose proof (fr_lenk _ _ _ _ F) as HL.
+    apply srt_all_on_seg; [lia|lia|].
+    apply srt_all_on_seg in H; [|lia|lia].
+    eapply Permutation_Forall; [|exact H]. symmetry.
+    apply srt_seg_perm; [lia|exact HL|exact (fr_permk _ _ _ _ F)|exact (fr_outk _ _ _ _ F)].
+  Qed.
+
+  (* ... and anything about positions outside the frame is untouched *)
+  Lemma srt_all_on_outside (P : K -> Prop) lo hi a b (s s' : ST) :
+    srt_frame lo hi s s' -> (b <= lo \/ hi <= a) ->
+    srt_all_on P (st_keys s) a b -> srt_all_on P (st_keys s') a b.
+  Proof.
+    intros F Hd H i x Hi Hx. apply (H i x Hi). rewrite <- (fr_outk _ _ _ _ F); [exact Hx|lia].
+  Qed.
+End FrameSeg.
+
+(* ------------------------------------------------------------------ order, sortedness *)
+Section Order.
+  Context {K V : Type}.
+  Variable less : K -> K -> bool.
+  (* less is a strict weak order *)
+  Hypothesis less_irrefl : forall x, less x x = false.
+  Hypothesis less_trans : forall x y z, less x y = true -> less y z = true -> less x z = true.
+  Hypothesis less_ntrans : forall x y z, less x y = false -> less y z = false -> less x z = false.
+  Notation ST := (srt_state K V).
+
+  (* x is not after y *)
+  Definition srt_le (x y : K) : Prop := less y x = false.
+
+  Lemma srt_le_refl x : srt_le x x.
+  Proof. apply less_irrefl. Qed.
+
+  Lemma srt_le_trans x y z : srt_le x y -> srt_le y z -> srt_le x z.
+  Proof. unfold srt_le. intros H1 H2. eapply less_ntrans; eassumption. Qed.
+
+  Lemma srt_lt_le x y : less x y = true -> srt_le x y.
+  Proof.
+    unfold srt_le. intros H. destruct (less y x) eqn:E; [|reflexivity].
+    pose proof (less_trans _ _ _ H E) as C. rewrite less_irrefl in C. discriminate.
+  Qed.
+
+  Definition srt_sorted_on (ks : list K) (a b : Z) : Prop :=
+    forall i j x y, a <= i -> i < j -> j < b ->
+      srt_zget ks i = Some x -> srt_zget ks j = Some y -> srt_le x y.
+
+  Lemma srt_sorted_on_outside lo hi a b (s s' : ST) :
+    srt_frame lo hi s s' -> (b <= lo \/ hi <= a) ->
+    srt_sorted_on (st_keys s) a b -> srt_sorted_on (st_keys s') a b.
+  Proof.
+    intros F Hd H i j x y Hi Hij Hj Hx Hy. apply (H i j x y Hi Hij Hj).
+    - rewrite <- (fr_outk _ _ _ _ F); [exact Hx|lia].
+    - rewrite <- (fr_outk _ _ _ _ F); [exact Hy|lia].
+  Qed.
+
+  (* ---------------- insertion sort *)
+  Definition srt_ins_pre (ks : list K) (a j i : Z) : Prop :=
+    srt_sorted_on ks a j /\ srt_sorted_on ks j (i + 1) /\
+    (forall p q x y, a <= p < j -> j < q <= i ->
+       srt_zget ks p = Some x -> srt_zget ks q = Some y -> srt_le x y).
+
+  Lemma srt_ins_inner_sorted a i n : forall j (s : ST) u s',
+    Z.of_nat n = j - a -> j <= i ->
+    srt_ins_pre (st_keys s) a j i ->
+    srt_ins_inner less n j s = SOk (u, s') ->
+    srt_sorted_on (st_keys s') a (i + 1).
+  Proof.
+    induction n as [|n IH]; intros j s u s' Hn Hji (H1 & H2 & H3) E; cbn [srt_ins_inner] in E.
+    - apply srt_inv_ret in E. destruct E as [_ <-]. replace a with j by lia. exact H2.
+    - apply srt_inv_bind in E. destruct E as (t & s1 & E1 & E).
+      apply srt_inv_less in E1. destruct E1 as (x & y & Hx & Hy & -> & Hk1 & _).
+      destruct (less x y) eqn:Hxy.
+      + apply srt_inv_bind in E. destruct E as (u2 & s2 & E2 & E).
+        apply srt_inv_swap in E2. rewrite Hk1 in E2.
+        destruct E2 as (x' & y' & Hx' & Hy' & Hj2 & Hj1 & Hoth).
+        rewrite Hx in Hx'. injection Hx' as <-. rewrite Hy in Hy'. injection Hy' as <-.
+        apply srt_lt_le in Hxy.
+        assert (View : forall k v, srt_zget (st_keys s2) k = Some v ->
+                  (k = j /\ v = y) \/ (k = j - 1 /\ v = x) \/
+                  (k <> j /\ k <> j - 1 /\ srt_zget (st_keys s) k = Some v)).
+        { intros k v Hv. destruct (Z.eq_dec k j) as [->|N1]; [left; split; congruence|].
+          destruct (Z.eq_dec k (j - 1)) as [->|N2]; [right; left; split; congruence|].
+          right; right. rewrite <- Hoth by assumption. auto. }
+        apply (IH (j - 1) s2 u s'); [lia|lia| |exact E].
+        split; [|split].
+        * intros p q xp xq Hp Hpq Hq Ep Eq.
+          apply View in Ep. apply View in Eq.
+          destruct Ep as [[? ?]|[[? ?]|(? & ? & Ep)]]; try lia.
+          destruct Eq as [[? ?]|[[? ?]|(? & ? & Eq)]]; try lia.
+          apply (H1 p q); auto; lia.
+        * intros p q xp xq Hp Hpq Hq Ep Eq.
+          apply View in Ep. apply View in Eq.
+          destruct Ep as [[? ->]|[[? ->]|(? & ? & Ep)]];
+            destruct Eq as [[? ->]|[[? ->]|(? & ? & Eq)]]; try lia.
+          -- apply (H3 (j - 1) q); auto; lia.
+          -- exact Hxy.
+          -- apply (H2 j q); auto; lia.
+          -- apply (H2 p q); auto; lia.
+        * intros p q xp xq Hp Hq Ep Eq.
+          apply View in Ep. apply View in Eq.
+          destruct Ep as [[? ->]|[[? ->]|(? & ? & Ep)]]; try lia.
+          destruct Eq as [[? ->]|[[? ->]|(? & ? & Eq)]]; try lia.
+          -- apply (H1 p (j - 1)); auto; lia.
+          -- apply (H3 p q); auto; lia.
+      + apply srt_inv_ret in E. destruct E as [_ <-]. rewrite Hk1.
+        assert (Hyx : srt_le y x) by exact Hxy.
+        intros p q xp xq Hp Hpq Hq Ep Eq.
+        destruct (Z.lt_ge_cases q j) as [Q1|Q1]; [apply (H1 p q); auto; lia|].
+        destruct (Z.lt_ge_cases p j) as [P1|P1]; [|apply (H2 p q); auto; lia].
+        destruct (Z.eq_dec q j) as [->|Q2]; [|apply (H3 p q); auto; lia].
+        rewrite Hx in Eq. injection Eq as <-.
+        destruct (Z.eq_dec p (j - 1)) as [->|P2].
+        * rewrite Hy in Ep. injection Ep as <-. exact Hyx.
+        * apply srt_le_trans with y; [|exact Hyx]. apply (H1 p (j - 1)); auto; lia.
+  Qed.
+
+  Lemma srt_for_up_inv (Inv : Z -> ST -> Prop) (body : Z -> srt_M unit) n : forall i0 (s : ST) u s',
+    (forall k s1 u1 s2, i0 <= k < i0 + Z.of_nat n -> Inv k s1 -> body k s1 = SOk (u1, s2) -> Inv (k + 1) s2) ->
+    Inv i0 s -> srt_for_up n i0 body s = SOk (u, s') -> Inv (i0 + Z.of_nat n) s'.
+  Proof.
+    induction n as [|n IH]; intros i0 s u s' Hb H0 E; cbn [srt_for_up] in E.
+    - apply srt_inv_ret in E. destruct E as [_ <-]. replace (i0 + Z.of_nat 0) with i0 by lia. exact H0.
+    - apply srt_inv_bind in E. destruct E as (u1 & s1 & E1 & E).
+      replace (i0 + Z.of_nat (S n)) with (i0 + 1 + Z.of_nat n) by lia.
+      apply (IH (i0 + 1) s1 u s'); [|apply (Hb i0 s u1 s1); [lia|exact H0|exact E1]|exact E].
+      intros k sa ua sb Hk. apply Hb. lia.
+  Qed.
+
+  Lemma srt_insertion_sort_sorted a b (s : ST) u s' :
+    srt_insertion_sort less a b s = SOk (u, s') -> srt_sorted_on (st_keys s') a b.
+  Proof.
+    unfold srt_insertion_sort, srt_for. intros E.
+    destruct (Z.le_gt_cases b (a + 1)) as [Hs|Hl].
+    { intros i j x y Hi Hij Hj. lia. }
+    apply (srt_for_up_inv (fun k st => srt_sorted_on (st_keys st) a k)) in E.
+    - replace (a + 1 + Z.of_nat (Z.to_nat (b - (a + 1)))) with b in E by lia. exact E.
+    - intros k s1 u1 s2 Hk Hinv Eb.
+      apply (srt_ins_inner_sorted a k (Z.to_nat (k - a)) k s1 u1 s2); [lia|lia| |exact Eb].
+      split; [exact Hinv|]. split.
+      + intros i j x y Hi Hij Hj. lia.
+      + intros p q x y Hp Hq. lia.
+    - intros i j x y Hi Hij Hj. lia.
+  Qed.
+
+  (* ---------------- quickSort, given the postconditions of doPivot and heapSort *)
+  Definition srt_pivot_post (ks : list K) (a b mlo mhi : Z) : Prop :=
+    a <= mlo /\ mlo <= mhi /\ mhi <= b /\
+    exists p, srt_all_on (fun x => srt_le x p) ks a mlo /\
+              srt_all_on (fun x => srt_le x p /\ srt_le p x) ks mlo mhi /\
+              srt_all_on (fun x => srt_le p x) ks mhi b.
+
+  (* three-zone partition: keys[a,mlo) <= pivot, keys[mlo,mhi) equivalent to pivot, keys[mhi,b) >= pivot *)
+  Definition srt_partition_ok : Prop :=
+    forall a b (s : ST) mlo mhi s', 0 <= a -> 12 < b - a -> srt_wf b s ->
+      srt_do_pivot less a b s = SOk ((mlo, mhi), s') ->
+      srt_pivot_post (st_keys s') a b mlo mhi.
+
+  Definition srt_heapsort_ok : Prop :=
+    forall a b (s : ST) u s', 0 <= a -> a <= b -> srt_wf b s ->
+      srt_heap_sort less a b s = SOk (u, s') -> srt_sorted_on (st_keys s') a b.
+
+  Lemma srt_sorted_join ks a b mlo mhi p :
+    a <= mlo -> mlo <= mhi -> mhi <= b ->
+    srt_sorted_on ks a mlo -> srt_sorted_on ks mhi b ->
+    srt_all_on (fun x => srt_le x p) ks a mlo ->
+    srt_all_on (fun x => srt_le x p /\ srt_le p x) ks mlo mhi ->
+    srt_all_on (fun x => srt_le p x) ks mhi b ->
+    srt_sorted_on ks a b.
+  Proof.
+    intros H1 H2 H3 SL SR ZL ZM ZR i j x y Hi Hij Hj Ex Ey.
+    destruct (Z.lt_ge_cases j mlo) as [J1|J1]; [apply (SL i j); auto; lia|].
+    destruct (Z.lt_ge_cases i mhi) as [I1|I1]; [|apply (SR i j); auto; lia].
+    assert (Hxp : srt_le x p).
+    { destruct (Z.lt_ge_cases i mlo); [apply (ZL i x); auto; lia|apply (ZM i x); auto; lia]. }
+    assert (Hpy : srt_le p y).
+    { destruct (Z.lt_ge_cases j mhi); [apply (ZM j y); auto; lia|apply (ZR j y); auto; lia]. }
+    eapply srt_le_trans; eassumption.
+  Qed.
+
+  Lemma srt_wf_le h h' (s : ST) : h' <= h -> srt_wf h s -> srt_wf h' s.
+  Proof. intros H [A B]. split; lia. Qed.
+
+  Lemma srt_quick_sort_sorted :
+    srt_partition_ok -> srt_heapsort_ok ->
+    forall fuel depth a b (s : ST) u s',
+      (depth < fuel)%nat -> 0 <= a -> a <= b -> srt_wf b s ->
+      srt_quick_sort less fuel a b depth s = SOk (u, s') ->
+      srt_sorted_on (st_keys s') a b.
+  Proof.
+    intros HP HH. induction fuel as [|f IH]; intros depth a b s u s' Hf Ha Hab Hw E; [lia|].
+    cbn [srt_quick_sort] in E.
+    destruct (Z.ltb_spec 12 (b - a)) as [Hbig|Hsmall].
+    - destruct depth as [|d'].
+      + apply srt_inv_bind in E. destruct E as (u1 & s1 & E1 & E).
+        destruct (srt_spec_elim a b _ _ s u1 s1 (srt_spec_tick a b _) Hw E1) as (_ & Hw1 & _).
+        apply (HH a b s1 u s'); assumption.
+      + apply srt_inv_bind in E. destruct E as ([mlo mhi] & s1 & E1 & E).
+        destruct (srt_spec_elim a b _ _ s _ s1 (srt_spec_do_pivot less a b Ha Hbig) Hw E1)
+          as (_ & Hw1 & Hm). cbn [fst snd] in Hm.
+        destruct (HP a b s mlo mhi s1 Ha Hbig Hw E1) as (M1 & M2 & M3 & p & ZL & ZM & ZR).
+        destruct (mlo - a <? b - mhi).
+        * apply srt_inv_bind in E. destruct E as (u2 & s2 & E2 & E).
+          destruct (srt_spec_elim a b _ _ s1 u2 s2 (srt_spec_tick a b _) Hw1 E2) as (_ & Hw2 & _).
+          apply srt_inv_tick in E2.
+          apply srt_inv_bind in E. destruct E as (u3 & s3 & E3 & E).
+          assert (Hw2l : srt_wf mlo s2) by (eapply srt_wf_le; [|exact Hw2]; lia).
+          destruct (srt_spec_elim a mlo _ _ s2 u3 s3
+                      (srt_spec_quick_sort less a mlo (Z.log2 (mlo - a)) f d' a mlo
+                         ltac:(lia) Ha ltac:(lia) M1 ltac:(lia) (Z.log2_nonneg _) ltac:(lia)) Hw2l E3)
+            as (F3 & _ & _).
+          assert (Hw3 : srt_wf b s3) by (eapply srt_wf_frame; eassumption).
+          pose proof (IH d' a mlo s2 u3 s3 ltac:(lia) Ha M1 Hw2l E3) as SL.
+          destruct (srt_spec_elim mhi b _ _ s3 u s'
+                      (srt_spec_quick_sort less mhi b (Z.log2 (b - mhi)) f d' mhi b
+                         ltac:(lia) ltac:(lia) ltac:(lia) M3 ltac:(lia) (Z.log2_nonneg _) ltac:(lia)) Hw3 E)
+            as (F4 & _ & _).
+          pose proof (IH d' mhi b s3 u s' ltac:(lia) ltac:(lia) M3 Hw3 E) as SR.
+          rewrite <- E2 in ZL, ZM, ZR.
+          apply (srt_sorted_join _ a b mlo mhi p M1 M2 M3).
+          -- eapply srt_sorted_on_outside; [exact F4|lia|exact SL].
+          -- exact SR.
+          -- eapply srt_all_on_outside; [exact F4|lia|].
+             eapply srt_all_on_frame; [| |exact F3|exact ZL]; [lia|exact Hw2l].
+          -- eapply srt_all_on_outside; [exact F4|lia|].
+             eapply srt_all_on_outside; [exact F3|lia|exact ZM].
+          -- eapply srt_all_on_frame; [| |exact F4|]; [lia|exact Hw3|].
+             eapply srt_all_on_outside; [exact F3|lia|exact ZR].
+        * apply srt_inv_bind in E. destruct E as (u2 & s2 & E2 & E).
+          destruct (srt_spec_elim a b _ _ s1 u2 s2 (srt_spec_tick a b _) Hw1 E2) as (_ & Hw2 & _).
+          apply srt_inv_tick in E2.
+          apply srt_inv_bind in E. destruct E as (u3 & s3 & E3 & E).
+          destruct (srt_spec_elim mhi b _ _ s2 u3 s3
+                      (srt_spec_quick_sort less mhi b (Z.log2 (b - mhi)) f d' mhi b
+                         ltac:(lia) ltac:(lia) ltac:(lia) M3 ltac:(lia) (Z.log2_nonneg _) ltac:(lia)) Hw2 E3)
+            as (F3 & Hw3 & _).
+          pose proof (IH d' mhi b s2 u3 s3 ltac:(lia) ltac:(lia) M3 Hw2 E3) as SR.
+          assert (Hw3l : srt_wf mlo s3) by (eapply srt_wf_le; [|exact Hw3]; lia).
+          destruct (srt_spec_elim a mlo _ _ s3 u s'
+                      (srt_spec_quick_sort less a mlo (Z.log2 (mlo - a)) f d' a mlo
+                         ltac:(lia) Ha ltac:(lia) M1 ltac:(lia) (Z.log2_nonneg _) ltac:(lia)) Hw3l E)
+            as (F4 & _ & _).
+          pose proof (IH d' a mlo s3 u s' ltac:(lia) Ha M1 Hw3l E) as SL.
+          rewrite <- E2 in ZL, ZM, ZR.
+          apply (srt_sorted_join _ a b mlo mhi p M1 M2 M3).
+          -- exact SL.
+          -- eapply srt_sorted_on_outside; [exact F4|lia|exact SR].
+          -- eapply srt_all_on_frame; [| |exact F4|]; [lia|exact Hw3l|].
+             eapply srt_all_on_outside; [exact F3|lia|exact ZL].
+          -- eapply srt_all_on_outside; [exact F4|lia|].
+             eapply srt_all_on_outside; [exact F3|lia|exact ZM].
+          -- eapply srt_all_on_outside; [exact F4|lia|].
+             eapply srt_all_on_frame; [| |exact F3|exact ZR]; [lia|exact Hw2].
+    - destruct (Z.ltb_spec 1 (b - a)) as [H2|H1].
+      + apply srt_inv_bind in E. destruct E as (u1 & s1 & _ & E).
+        apply srt_inv_bind in E. destruct E as (u2 & s2 & _ & E).
+        eapply srt_insertion_sort_sorted. exact E.
+      + apply srt_inv_ret in E. destruct E as [_ <-]. intros i j x y Hi Hij Hj. lia.
+  Qed.
+End Order.
